@@ -375,7 +375,8 @@ fn drain_dev_log(
                 }
                 let mut ev = json!({"ev": "W", "n": n, "vol": vi + 1, "blk": blk, "reg": reg,
                     "fat": [], "restok": true, "up": [], "info": {"ok": true, "f": -1, "n": -1},
-                    "chg": [], "chgx": false, "trk": true, "same": prev == *data});
+                    "chg": [], "chgx": false, "trk": true, "same": prev == *data,
+                    "z": data.iter().all(|&x| x == 0), "dot": data[0] == 0x2E && data[1..11].iter().all(|&x| x == 0x20)});
                 if vi >= 0 {
                     let g = &geos[vi as usize];
                     match reg {
